@@ -1244,4 +1244,599 @@ example : (call implLib "filter" [.v (.dkeys [.int 1, .int 2]), .f ⟨"k1", .nul
     = .ok (some .list) := by decide +kernel
 
 
+/-! ## classify / group_all / frequencies: the result as a finite map
+The entries come out of a `HashMap`, so their order is unspecified; what is specified is the map:
+the group stored under `k` is `xs.filter (key · == k)` (input order), and the count is its length. -/
+
+/-- push all (element, key) pairs into the association list -/
+def pushAll [BEq κ] (m : List (κ × List α)) (ps : List (α × κ)) : List (κ × List α) :=
+  ps.foldl (fun m p => entryPush p.2 p.1 m) m
+
+theorem classifiedGo_eq [BEq κ] (key : α → Out κ) (m : List (κ × List α)) (xs : List α) :
+    classifiedGo key m xs = SeqSpec.bind (SeqSpec.mapE key xs) fun ks => .ok (pushAll m (xs.zip ks)) := by
+  induction xs generalizing m with
+  | nil => simp [classifiedGo, SeqSpec.mapE, pushAll]
+  | cons x xs ih =>
+    simp only [classifiedGo, SeqSpec.mapE]
+    cases key x with
+    | ok k =>
+      simp only [SeqSpec.bind_ok, ih]
+      cases SeqSpec.mapE key xs <;> simp [SeqSpec.bind, pushAll]
+    | throw => rfl
+    | panic => rfl
+
+/-- what the map holds under `k` after more elements arrive -/
+def combine (o : Option (List α)) (l : List α) : Option (List α) :=
+  if l.isEmpty then o else some (o.getD [] ++ l)
+
+theorem lookup_entryPush [BEq κ] [LawfulBEq κ] (k k' : κ) (i : α) (m : List (κ × List α)) :
+    (entryPush k' i m).lookup k = if k == k' then some ((m.lookup k).getD [] ++ [i]) else m.lookup k := by
+  induction m with
+  | nil =>
+    simp only [entryPush, List.lookup]
+    cases h : k == k' <;> simp
+  | cons e m ih =>
+    obtain ⟨k2, g⟩ := e
+    simp only [entryPush]
+    by_cases h2 : (k2 == k') = true
+    · have e2 : k2 = k' := by simpa using h2
+      subst e2
+      simp only [BEq.rfl, if_true, List.lookup]
+      cases h : k == k2 <;> simp
+    · have h2' : (k2 == k') = false := by simpa using h2
+      simp only [h2', Bool.false_eq_true, if_false, List.lookup, ih]
+      cases h : k == k2 with
+      | false => rfl
+      | true =>
+        have : k = k2 := by simpa using h
+        subst this
+        simp [h2']
+
+theorem lookup_pushAll [BEq κ] [LawfulBEq κ] (k : κ) (m : List (κ × List α)) (ps : List (α × κ)) :
+    (pushAll m ps).lookup k = combine (m.lookup k) ((ps.filter (·.2 == k)).map (·.1)) := by
+  induction ps generalizing m with
+  | nil => simp [pushAll, combine]
+  | cons p ps ih =>
+    have : pushAll m (p :: ps) = pushAll (entryPush p.2 p.1 m) ps := rfl
+    rw [this, ih, lookup_entryPush]
+    simp only [List.filter_cons]
+    by_cases h : (p.2 == k) = true
+    · have e : p.2 = k := by simpa using h
+      subst e
+      simp [combine]
+    · have h' : (p.2 == k) = false := by simpa using h
+      have h'' : (k == p.2) = false := by
+        cases hk : k == p.2 with
+        | false => rfl
+        | true => have : k = p.2 := by simpa using hk
+                  subst this; simp at h'
+      simp [h', h'']
+
+/-- **classify / group_all as a finite map**: for a key function that never fails, the entry under
+`k` is exactly the elements with key `k`, in input order (absent iff there is none) -/
+theorem classified_lookup [BEq κ] [LawfulBEq κ] (key : α → κ) (xs : List α) (k : κ) :
+    ∃ m, classifiedWith (fun x => .ok (key x)) xs = .ok m
+      ∧ m.lookup k = (if (xs.filter (key · == k)).isEmpty then none else some (xs.filter (key · == k))) := by
+  refine ⟨pushAll [] (xs.zip (xs.map key)), ?_, ?_⟩
+  · simp [classifiedWith, classifiedGo_eq, mapE_pure]
+  · rw [lookup_pushAll]
+    have : ((xs.zip (xs.map key)).filter (·.2 == k)).map (·.1) = xs.filter (key · == k) := by
+      induction xs with
+      | nil => rfl
+      | cons x xs ih =>
+        simp only [List.map_cons, List.zip_cons_cons, List.filter_cons]
+        cases key x == k <;> simp [ih]
+    rw [this]
+    simp [combine, List.lookup]
+
+/-- the Spec's `groupAll` denotes the same finite map -/
+theorem groupAll_lookup [BEq κ] [LawfulBEq κ] (key : α → κ) (xs : List α) (k : κ) :
+    (SeqSpec.groupAll key xs).lookup k
+      = (if (xs.filter (key · == k)).isEmpty then none else some (xs.filter (key · == k))) := by
+  unfold SeqSpec.groupAll
+  generalize hks : xs.map key = ks
+  have hmem : ∀ k, k ∈ ks ↔ ∃ x ∈ xs, key x = k := by
+    intro k; rw [← hks]; simp
+  have hl : ∀ ks : List κ,
+      ((SeqSpec.uniqueBy id ks).map fun k => (k, xs.filter fun x => key x == k)).lookup k
+        = if k ∈ ks then some (xs.filter fun x => key x == k) else none := by
+    intro ks
+    induction ks with
+    | nil => simp [SeqSpec.uniqueBy, List.lookup]
+    | cons a ks ih =>
+      simp only [SeqSpec.uniqueBy, List.map_cons, List.lookup, id]
+      cases hka : k == a with
+      | true =>
+        have : k = a := by simpa using hka
+        subst this; simp
+      | false =>
+        have hne : k ≠ a := by simpa using hka
+        simp only [List.mem_cons, hne, false_or]
+        rw [← ih]
+        -- filtering out `a` does not change the lookup of `k ≠ a`
+        generalize SeqSpec.uniqueBy id ks = us
+        induction us with
+        | nil => rfl
+        | cons u us ihu =>
+          simp only [List.filter_cons, id]
+          cases hua : u == a with
+          | true =>
+            have : u = a := by simpa using hua
+            subst this
+            simp only [Bool.not_true, Bool.false_eq_true, if_false, List.map_cons, List.lookup, hka, ihu]
+          | false =>
+            simp only [Bool.not_false, if_true, List.map_cons, List.lookup, ihu]
+  rw [hl ks]
+  by_cases hk : k ∈ ks
+  · obtain ⟨x, hx, rfl⟩ := (hmem k).mp hk
+    have : (xs.filter fun y => key y == key x) ≠ [] := by
+      intro h0
+      have : x ∈ xs.filter fun y => key y == key x := List.mem_filter.mpr ⟨hx, by simp⟩
+      rw [h0] at this; cases this
+    simp [hk, this]
+  · have : (xs.filter fun y => key y == k) = [] := by
+      rw [List.filter_eq_nil_iff]
+      intro x hx h
+      exact hk ((hmem k).mpr ⟨x, hx, by simpa using h⟩)
+    simp [hk, this]
+
+/-- `frequencies`: the count stored under `k` is the number of elements equal to `k` -/
+theorem lookup_entryIncr [BEq κ] [LawfulBEq κ] (k k' : κ) (m : List (κ × Nat)) :
+    (entryIncr k' m).lookup k = if k == k' then some ((m.lookup k).getD 0 + 1) else m.lookup k := by
+  induction m with
+  | nil =>
+    simp only [entryIncr, List.lookup]
+    cases h : k == k' <;> simp
+  | cons e m ih =>
+    obtain ⟨k2, c⟩ := e
+    simp only [entryIncr]
+    by_cases h2 : (k2 == k') = true
+    · have e2 : k2 = k' := by simpa using h2
+      subst e2
+      simp only [BEq.rfl, if_true, List.lookup]
+      cases h : k == k2 <;> simp
+    · have h2' : (k2 == k') = false := by simpa using h2
+      simp only [h2', Bool.false_eq_true, if_false, List.lookup, ih]
+      cases h : k == k2 with
+      | false => rfl
+      | true =>
+        have : k = k2 := by simpa using h
+        subst this
+        simp [h2']
+
+theorem frequenciesGo_lookup [BEq κ] [LawfulBEq κ] (key : α → κ) (c : List (κ × Nat)) (xs : List α) (k : κ) :
+    ∃ m, frequenciesGo (fun x => .ok (key x)) c xs = .ok m
+      ∧ (m.lookup k).getD 0 = (c.lookup k).getD 0 + (xs.filter (key · == k)).length
+      ∧ ((m.lookup k).isSome = ((c.lookup k).isSome || !(xs.filter (key · == k)).isEmpty)) := by
+  induction xs generalizing c with
+  | nil => exact ⟨c, rfl, by simp, by simp⟩
+  | cons x xs ih =>
+    obtain ⟨m, hm, hcount, hsome⟩ := ih (entryIncr (key x) c)
+    refine ⟨m, by simp [frequenciesGo, hm], ?_, ?_⟩
+    · rw [hcount, lookup_entryIncr, List.filter_cons]
+      cases h : k == key x with
+      | true =>
+        have : k = key x := by simpa using h
+        subst this; simp; omega
+      | false =>
+        have : (key x == k) = false := by
+          cases h2 : key x == k with
+          | false => rfl
+          | true => have : key x = k := by simpa using h2
+                    subst this; simp at h
+        simp [this]
+    · rw [hsome, lookup_entryIncr, List.filter_cons]
+      cases h : k == key x with
+      | true =>
+        have : k = key x := by simpa using h
+        subst this; simp
+      | false =>
+        have : (key x == k) = false := by
+          cases h2 : key x == k with
+          | false => rfl
+          | true => have : key x = k := by simpa using h2
+                    subst this; simp at h
+        simp [this]
+
+/-- **frequencies as a finite map** -/
+theorem frequencies_lookup [BEq κ] [LawfulBEq κ] (key : α → κ) (xs : List α) (k : κ) :
+    ∃ m, frequencies (fun x => .ok (key x)) xs = .ok m
+      ∧ m.lookup k = (if (xs.filter (key · == k)).isEmpty then none else some (xs.filter (key · == k)).length) := by
+  obtain ⟨m, hm, hcount, hsome⟩ := frequenciesGo_lookup key [] xs k
+  refine ⟨m, hm, ?_⟩
+  simp only [List.lookup, Option.getD_none, Nat.zero_add, Option.isSome_none, Bool.false_or] at hcount hsome
+  cases hl : m.lookup k with
+  | none =>
+    rw [hl] at hsome
+    have : (xs.filter (key · == k)).isEmpty = true := by simpa using hsome.symm
+    simp [this]
+  | some n =>
+    rw [hl] at hsome hcount
+    have : (xs.filter (key · == k)).isEmpty = false := by simpa using hsome.symm
+    simp only [Option.getD_some] at hcount
+    simp [this, hcount]
+
+
+theorem frequenciesSpec_eq [BEq κ] (key : α → κ) (xs : List α) :
+    SeqSpec.frequencies key xs = (SeqSpec.groupAll key xs).map fun e => (e.1, e.2.length) := by
+  simp [SeqSpec.frequencies, SeqSpec.groupAll, List.map_map, Function.comp_def]
+
+/-! ## strings: split / words / lines -/
+
+def consHead (cur : List γ) : List (List γ) → List (List γ)
+  | h :: t => (cur ++ h) :: t
+  | [] => [cur]
+
+theorem stripPrefix?_eq [BEq γ] (pat s : List γ) :
+    stripPrefix? pat s = if pat.isPrefixOf s then some (s.drop pat.length) else none := by
+  induction pat generalizing s with
+  | nil => simp [stripPrefix?]
+  | cons p ps ih =>
+    cases s with
+    | nil => simp [stripPrefix?, List.isPrefixOf]
+    | cons c cs =>
+      simp only [stripPrefix?, List.isPrefixOf, ih, List.length_cons, List.drop_succ_cons]
+      cases p == c <;> simp
+
+theorem splitPat_ne_nil [BEq γ] (pat : List γ) (fuel : Nat) (s : List γ) : SeqSpec.splitPat pat fuel s ≠ [] := by
+  cases fuel with
+  | zero => simp [SeqSpec.splitPat]
+  | succ fuel =>
+    cases s with
+    | nil => simp [SeqSpec.splitPat]
+    | cons c cs =>
+      simp only [SeqSpec.splitPat]
+      split
+      · simp
+      · split <;> simp
+
+theorem splitGo_eq [BEq γ] (pat : List γ) (fuel : Nat) (cur s : List γ) :
+    splitGo pat fuel cur s = consHead cur (SeqSpec.splitPat pat fuel s) := by
+  induction fuel generalizing cur s with
+  | zero => simp [splitGo, SeqSpec.splitPat, consHead]
+  | succ fuel ih =>
+    cases s with
+    | nil => simp [splitGo, SeqSpec.splitPat, consHead]
+    | cons c cs =>
+      simp only [splitGo, SeqSpec.splitPat, stripPrefix?_eq]
+      by_cases hp : pat.isPrefixOf (c :: cs) = true
+      · simp only [hp, if_true, ih, consHead, List.append_nil]
+        cases h : SeqSpec.splitPat pat fuel (List.drop pat.length (c :: cs)) with
+        | nil => exact absurd h (splitPat_ne_nil _ _ _)
+        | cons a b => simp [consHead]
+      · have hp' : pat.isPrefixOf (c :: cs) = false := by simpa using hp
+        simp only [hp', Bool.false_eq_true, if_false, ih]
+        cases h : SeqSpec.splitPat pat fuel cs with
+        | nil => exact absurd h (splitPat_ne_nil _ _ _)
+        | cons a b => simp [consHead]
+
+theorem split_eq [BEq γ] (s pat : List γ) : split s pat = SeqSpec.split s pat := by
+  simp only [split, SeqSpec.split, splitGo_eq]
+  split
+  · rfl
+  · cases h : SeqSpec.splitPat pat (s.length + 1) s with
+    | nil => exact absurd h (splitPat_ne_nil _ _ _)
+    | cons a b => simp [consHead]
+
+theorem splitOnP_ne_nil (p : γ → Bool) (s : List γ) : SeqSpec.splitOnP p s ≠ [] := by
+  cases s with
+  | nil => simp [SeqSpec.splitOnP]
+  | cons c cs =>
+    simp only [SeqSpec.splitOnP]
+    split
+    · simp
+    · split <;> simp
+
+theorem wordsGo_eq (isWs : γ → Bool) (cur s : List γ) :
+    wordsGo isWs cur s = (consHead cur (SeqSpec.splitOnP isWs s)).filter (!·.isEmpty) := by
+  induction s generalizing cur with
+  | nil => cases cur <;> simp [wordsGo, SeqSpec.splitOnP, consHead]
+  | cons c cs ih =>
+    simp only [wordsGo, SeqSpec.splitOnP]
+    by_cases hw : isWs c = true
+    · simp only [hw, if_true, ih, consHead, List.append_nil, List.nil_append]
+      cases h : SeqSpec.splitOnP isWs cs with
+      | nil => exact absurd h (splitOnP_ne_nil _ _)
+      | cons a b => cases cur <;> simp [consHead, List.filter_cons]
+    · have hw' : isWs c = false := by simpa using hw
+      simp only [hw', Bool.false_eq_true, if_false, ih]
+      cases h : SeqSpec.splitOnP isWs cs with
+      | nil => exact absurd h (splitOnP_ne_nil _ _)
+      | cons a b => simp [consHead]
+
+theorem words_eq (isWs : γ → Bool) (s : List γ) : words isWs s = SeqSpec.words isWs s := by
+  simp only [words, SeqSpec.words, wordsGo_eq]
+  cases h : SeqSpec.splitOnP isWs s with
+  | nil => exact absurd h (splitOnP_ne_nil _ _)
+  | cons a b => simp [consHead]
+
+theorem splitPat_single [BEq γ] [LawfulBEq γ] (nl : γ) (fuel : Nat) (s : List γ) (h : s.length < fuel) :
+    SeqSpec.splitPat [nl] fuel s = SeqSpec.splitOnP (· == nl) s := by
+  induction fuel generalizing s with
+  | zero => omega
+  | succ fuel ih =>
+    cases s with
+    | nil => simp [SeqSpec.splitPat, SeqSpec.splitOnP]
+    | cons c cs =>
+      simp only [SeqSpec.splitPat, SeqSpec.splitOnP, List.isPrefixOf, List.length_singleton, List.drop_succ_cons,
+        List.drop_zero, Bool.and_true]
+      have hc : (nl == c) = (c == nl) := by
+        cases h1 : nl == c <;> cases h2 : c == nl <;> simp_all
+      rw [hc, ih cs (by simp at h; omega)]
+
+theorem lines_eq [BEq γ] [LawfulBEq γ] (nl : γ) (s : List γ) : lines nl s = SeqSpec.lines nl s := by
+  simp only [lines, SeqSpec.lines, split_eq, SeqSpec.split, List.isEmpty_cons, Bool.false_eq_true, if_false]
+  rw [splitPat_single nl _ s (by omega)]
+  generalize SeqSpec.splitOnP (· == nl) s = parts
+  cases h : parts.getLast? with
+  | none => simp
+  | some l => cases l <;> simp
+
+
+/-! ## the combinatorial enumerations: exactly the documented sets -/
+
+/-- `subsequences xs` lists exactly the sublists of `xs` -/
+theorem subsequences_mem (xs l : List α) : l ∈ SeqSpec.subsequences xs ↔ l.Sublist xs := by
+  induction xs generalizing l with
+  | nil => simp [SeqSpec.subsequences]
+  | cons x xs ih =>
+    simp only [SeqSpec.subsequences, List.mem_append, List.mem_map, ih, List.sublist_cons_iff]
+    constructor
+    · rintro (h | ⟨r, hr, rfl⟩)
+      · exact Or.inl h
+      · exact Or.inr ⟨r, rfl, hr⟩
+    · rintro (h | ⟨r, rfl, hr⟩)
+      · exact Or.inl h
+      · exact Or.inr ⟨r, hr, rfl⟩
+
+/-- … each of them once per choice of positions: there are `2 ^ n` entries -/
+theorem subsequences_length (xs : List α) : (SeqSpec.subsequences xs).length = 2 ^ xs.length := by
+  induction xs with
+  | nil => rfl
+  | cons x xs ih => simp [SeqSpec.subsequences, ih, Nat.pow_succ]; omega
+
+/-- no duplicates when the input has none (duplicate-free in index space) -/
+theorem subsequences_nodup (xs : List α) (h : xs.Nodup) : (SeqSpec.subsequences xs).Nodup := by
+  induction xs with
+  | nil => simp [SeqSpec.subsequences]
+  | cons x xs ih =>
+    have hx : x ∉ xs := (List.nodup_cons.mp h).1
+    have hxs := ih (List.nodup_cons.mp h).2
+    simp only [SeqSpec.subsequences]
+    rw [List.nodup_append]
+    refine ⟨hxs, ?_, ?_⟩
+    · exact List.Pairwise.map _ (fun a b hab h => hab (by injection h)) hxs
+    · intro a ha b hb hab
+      subst hab
+      obtain ⟨r, _, rfl⟩ := List.mem_map.mp hb
+      have := (subsequences_mem xs (x :: r)).mp ha
+      exact hx (this.subset List.mem_cons_self)
+
+/-- `product`: exactly the ways to pick one element from each factor -/
+theorem product_mem (seqs : List (List α)) (l : List α) :
+    l ∈ SeqSpec.product seqs ↔ l.length = seqs.length ∧ ∀ p ∈ l.zip seqs, p.1 ∈ p.2 := by
+  induction seqs generalizing l with
+  | nil => cases l <;> simp [SeqSpec.product]
+  | cons s rest ih =>
+    simp only [SeqSpec.product, List.mem_flatMap, List.mem_map, ih]
+    constructor
+    · rintro ⟨x, hx, t, ⟨hl, hall⟩, rfl⟩
+      refine ⟨by simp [hl], ?_⟩
+      intro p hp
+      simp only [List.zip_cons_cons, List.mem_cons] at hp
+      rcases hp with rfl | hp
+      · exact hx
+      · exact hall p hp
+    · rintro ⟨hl, hall⟩
+      cases l with
+      | nil => simp at hl
+      | cons a l =>
+        refine ⟨a, hall (a, s) (by simp), l, ⟨by simpa using hl, ?_⟩, rfl⟩
+        intro p hp
+        exact hall p (by simp [hp])
+
+theorem product_length (seqs : List (List α)) :
+    (SeqSpec.product seqs).length = (seqs.map List.length).foldr (· * ·) 1 := by
+  induction seqs with
+  | nil => rfl
+  | cons s rest ih =>
+    simp only [SeqSpec.product, List.map_cons, List.foldr_cons, ← ih]
+    induction s with
+    | nil => simp
+    | cons x xs ihs => simp [List.flatMap_cons, ihs, Nat.succ_mul]; omega
+
+/-- `xs ^^ n`: exactly the length-`n` tuples over `xs`; there are `|xs| ^ n` of them; in particular
+`xs ^^ 0 = [[]]` for every `xs`, the empty one included (F21) -/
+theorem power_succ (xs : List α) (n : Nat) :
+    SeqSpec.power xs (n + 1) = xs.flatMap fun x => (SeqSpec.power xs n).map (x :: ·) := rfl
+
+theorem power_mem (xs : List α) (n : Nat) (l : List α) :
+    l ∈ SeqSpec.power xs n ↔ l.length = n ∧ ∀ a ∈ l, a ∈ xs := by
+  induction n generalizing l with
+  | zero => cases l <;> simp [SeqSpec.power, SeqSpec.product]
+  | succ n ih =>
+    simp only [power_succ, List.mem_flatMap, List.mem_map, ih]
+    constructor
+    · rintro ⟨x, hx, t, ⟨hl, hall⟩, rfl⟩
+      exact ⟨by simp [hl], by intro a ha; rcases List.mem_cons.mp ha with rfl | ha; exact hx; exact hall a ha⟩
+    · rintro ⟨hl, hall⟩
+      cases l with
+      | nil => simp at hl
+      | cons a l =>
+        exact ⟨a, hall a (by simp), l, ⟨by simpa using hl, fun b hb => hall b (by simp [hb])⟩, rfl⟩
+
+theorem power_length (xs : List α) (n : Nat) : (SeqSpec.power xs n).length = xs.length ^ n := by
+  induction n with
+  | zero => rfl
+  | succ n ih =>
+    rw [power_succ, Nat.pow_succ]
+    have : ∀ ys : List α, (ys.flatMap fun x => (SeqSpec.power xs n).map (x :: ·)).length = ys.length * xs.length ^ n := by
+      intro ys
+      induction ys with
+      | nil => simp
+      | cons y ys ihy => simp [List.flatMap_cons, ihy, ih, Nat.succ_mul]; omega
+    rw [this, Nat.mul_comm]
+
+theorem power_zero (xs : List α) : SeqSpec.power xs 0 = [[]] := rfl
+
+/-- `combinations xs k`: exactly the sublists of length `k` -/
+theorem combinations_mem (xs : List α) (k : Nat) (l : List α) :
+    l ∈ SeqSpec.combinations xs k ↔ l.Sublist xs ∧ l.length = k := by
+  induction xs generalizing k l with
+  | nil =>
+    cases k with
+    | zero => simp [SeqSpec.combinations]
+    | succ k => simp [SeqSpec.combinations]; intro h; subst h; simp
+  | cons x xs ih =>
+    cases k with
+    | zero =>
+      simp only [SeqSpec.combinations, List.mem_singleton]
+      constructor
+      · rintro rfl; simp
+      · rintro ⟨_, h⟩; exact List.length_eq_zero_iff.mp h
+    | succ k =>
+      simp only [SeqSpec.combinations, List.mem_append, List.mem_map, ih, List.sublist_cons_iff]
+      constructor
+      · rintro (⟨r, ⟨hr, hl⟩, rfl⟩ | ⟨h, hl⟩)
+        · exact ⟨Or.inr ⟨r, rfl, hr⟩, by simp [hl]⟩
+        · exact ⟨Or.inl h, hl⟩
+      · rintro ⟨h | ⟨r, rfl, hr⟩, hl⟩
+        · exact Or.inr ⟨h, hl⟩
+        · exact Or.inl ⟨r, ⟨hr, by simpa using hl⟩, rfl⟩
+
+/-- `permutations`: `n!` entries, each a permutation of the input -/
+theorem picks_perm (xs : List α) (p : α × List α) (h : p ∈ SeqSpec.picks xs) : (p.1 :: p.2).Perm xs := by
+  induction xs generalizing p with
+  | nil => cases h
+  | cons x xs ih =>
+    simp only [SeqSpec.picks, List.mem_cons, List.mem_map] at h
+    rcases h with rfl | ⟨q, hq, rfl⟩
+    · exact List.Perm.refl _
+    · exact (List.Perm.swap _ _ _).trans ((ih q hq).cons x)
+
+theorem picks_length (xs : List α) (p : α × List α) (h : p ∈ SeqSpec.picks xs) : p.2.length + 1 = xs.length := by
+  have := (picks_perm xs p h).length_eq
+  simpa using this
+
+theorem permsN_perm (n : Nat) (xs : List α) (hn : xs.length = n) (l : List α) (h : l ∈ SeqSpec.permsN n xs) :
+    l.Perm xs := by
+  induction n generalizing xs l with
+  | zero =>
+    simp only [SeqSpec.permsN, List.mem_singleton] at h
+    subst h
+    rw [List.length_eq_zero_iff.mp hn]
+  | succ n ih =>
+    simp only [SeqSpec.permsN, List.mem_flatMap, List.mem_map] at h
+    obtain ⟨p, hp, t, ht, rfl⟩ := h
+    have hl := picks_length xs p hp
+    exact ((ih p.2 (by omega) t ht).cons p.1).trans (picks_perm xs p hp)
+
+theorem permutations_perm (xs l : List α) (h : l ∈ SeqSpec.permutations xs) : l.Perm xs :=
+  permsN_perm xs.length xs rfl l h
+
+theorem permutations_nil : SeqSpec.permutations ([] : List α) = [[]] := rfl
+
+
+/-! ## the combinatorial streams of streams.rs: Impl iterator = Spec enumeration
+The iterator models (`powerIncr`, `subseqIncr`, `combIncr`, `permIncr` driven by `forceGo`) are
+executable and compared with the Spec enumerations (and with the real interpreter) on every run of
+the check; the equations below are NOT proved here and are kept as statements. -/
+
+def cartesianPower_statement : Prop :=
+  ∀ (α : Type) (xs : List α) (n : Nat), cartesianPower xs n = SeqSpec.power xs n
+def subsequences_statement : Prop :=
+  ∀ (α : Type) (xs : List α), subsequences xs = SeqSpec.subsequences xs
+def combinations_statement : Prop :=
+  ∀ (α : Type) (xs : List α) (k : Nat), combinations xs k = SeqSpec.combinations xs k
+def permutations_statement : Prop :=
+  ∀ (α : Type) (xs : List α), permutations xs = SeqSpec.permutations xs
+
+/-! ## the call table: `implLib` and `specLib` agree field by field
+(the fields whose equation needs no side condition; `grouped` / `windowed` need `0 < n`, which
+`call` checks before using them; `sortWith` / `sortedOn` need a direction-consistent comparator;
+`unique`, `classified`, `frequencies` are characterised above as first-occurrence list / finite
+maps) -/
+
+theorem lib_filter : implLib.filter = specLib.filter := by
+  funext p neg xs; exact filtered_eq p xs neg
+theorem lib_groupedBy : implLib.groupedBy = specLib.groupedBy := by
+  funext f xs; exact groupedBy_eq f xs
+theorem lib_prefixes : implLib.prefixes = specLib.prefixes := by funext xs; exact prefixes_eq xs
+theorem lib_suffixes : implLib.suffixes = specLib.suffixes := by funext xs; exact suffixes_eq xs
+theorem lib_takeWhile : implLib.takeWhile = specLib.takeWhile := by funext p xs; exact takeWhile_eq p xs
+theorem lib_dropWhile : implLib.dropWhile = specLib.dropWhile := by funext p xs; exact dropWhile_eq p xs
+theorem lib_map : implLib.map = specLib.map := by funext f xs; exact map_eq f xs
+theorem lib_each : implLib.each = specLib.each := by funext f xs; exact each_eq f xs
+theorem lib_flatMap : implLib.flatMap = specLib.flatMap := by funext f xs; exact flatMap_eq f xs
+theorem lib_partition : implLib.partition = specLib.partition := by funext p xs; exact partition_eq p xs
+theorem lib_pairwise : implLib.pairwise = specLib.pairwise := by funext f xs; exact pairwise_eq f xs
+theorem lib_enumerate : implLib.enumerate = specLib.enumerate := by funext xs; exact enumerate_eq xs
+theorem lib_find : implLib.find = specLib.find := by funext p xs; exact find_eq p xs
+theorem lib_locate : implLib.locate = specLib.locate := by funext p xs; exact locate_eq p xs
+theorem lib_count : implLib.count = specLib.count := by funext p xs; exact count_eq p xs
+theorem lib_any : implLib.any = specLib.any := by funext p xs; exact any_eq p xs
+theorem lib_all : implLib.all = specLib.all := by funext p xs; exact all_eq p xs
+theorem lib_sumLike : implLib.sumLike = specLib.sumLike := by
+  funext z op f xs; exact sumLike_eq z op f xs
+theorem lib_extremum : implLib.extremum = specLib.extremum := by
+  funext c b xs; exact extremum_eq c b xs
+theorem lib_foldFrom : implLib.foldFrom = specLib.foldFrom := by funext f z xs; exact foldFrom_eq f z xs
+theorem lib_fold1 : implLib.fold1 = specLib.fold1 := by funext f xs; exact fold1_eq f xs
+theorem lib_scanFrom : implLib.scanFrom = specLib.scanFrom := by funext f z xs; exact scanFrom_eq f z xs
+theorem lib_scan1 : implLib.scan1 = specLib.scan1 := by funext f xs; exact scan1_eq f xs
+theorem lib_zip : implLib.zip = specLib.zip := by funext f its; exact zip_eq f its
+theorem lib_zipLongest : implLib.zipLongest = specLib.zipLongest := by
+  funext f its; exact zipLongest_eq f its
+theorem lib_product : implLib.product = specLib.product := by funext s; exact cartesianProduct_eq s
+theorem lib_repeatSeq : implLib.repeatSeq = specLib.repeatSeq := by funext s n; exact cartesianScalar_eq s n
+theorem lib_join : implLib.join = specLib.join := by funext j d xs; exact join_eq j d xs
+theorem lib_split : implLib.split = specLib.split := by funext s p; exact split_eq s p
+theorem lib_words : implLib.words = specLib.words := by funext s; exact words_eq _ s
+theorem lib_lines : implLib.lines = specLib.lines := by funext s; exact lines_eq _ s
+
+/-- and therefore whole calls agree, e.g. (all input kinds, every closure of the family): -/
+theorem call_filter (s : Val) (f : Fn) :
+    call implLib "filter" [.v s, .f f] = call specLib "filter" [.v s, .f f] := by
+  show multi s (implLib.filter f.pred false) = multi s (specLib.filter f.pred false)
+  rw [lib_filter]
+theorem call_reject (s : Val) (f : Fn) :
+    call implLib "reject" [.v s, .f f] = call specLib "reject" [.v s, .f f] := by
+  show multi s (implLib.filter f.pred true) = multi s (specLib.filter f.pred true)
+  rw [lib_filter]
+theorem call_take (s : Val) (f : Fn) :
+    call implLib "take" [.v s, .f f] = call specLib "take" [.v s, .f f] := by
+  show multi s (implLib.takeWhile f.pred) = multi s (specLib.takeWhile f.pred)
+  rw [lib_takeWhile]
+theorem call_map (s : Val) (f : Fn) :
+    call implLib "map" [.v s, .f f] = call specLib "map" [.v s, .f f] := by
+  show andThen s.iter (fun xs => (implLib.map f.call1 xs).map Val.list)
+     = andThen s.iter (fun xs => (specLib.map f.call1 xs).map Val.list)
+  rw [lib_map]
+theorem call_window (s : Val) (n : Int) :
+    call implLib "window" [.v s, .v (.int n)] = call specLib "window" [.v s, .v (.int n)] := by
+  show andThen (usizeOf n) (fun n => if n = 0 then .throw else multimulti s fun xs => .ok (implLib.windowed xs n))
+     = andThen (usizeOf n) (fun n => if n = 0 then .throw else multimulti s fun xs => .ok (specLib.windowed xs n))
+  congr 1
+  funext m
+  by_cases hm : m = 0
+  · simp [hm]
+  · simp only [hm, if_false]
+    congr 1
+    funext xs
+    show Out.ok (windowed xs m) = Out.ok (SeqSpec.window xs m)
+    rw [windowed_eq xs m (by omega)]
+theorem call_group_n (s : Val) (n : Int) :
+    call implLib "group" [.v s, .v (.int n)] = call specLib "group" [.v s, .v (.int n)] := by
+  show andThen (usizeOf n) (fun n => if n = 0 then .throw else multimulti s fun xs => implLib.grouped xs n false)
+     = andThen (usizeOf n) (fun n => if n = 0 then .throw else multimulti s fun xs => specLib.grouped xs n false)
+  congr 1
+  funext m
+  by_cases hm : m = 0
+  · simp [hm]
+  · simp only [hm, if_false]
+    congr 1
+    funext xs
+    exact grouped_eq xs m false (by omega)
+
+
 end Noulith.C13
